@@ -47,6 +47,7 @@ META = dict(
 
 KINDS = ['clean', 'one', 'several', 'bad']
 STEM_POOLS = [['fa', 'fb', 'fc', 'fd'], ['x1', 'x2', 'x3', 'x4'], ['mod_a', 'mod_b', 'mod_c', 'mod_d']]
+REAL_SLOTS = max(2, (os.cpu_count() or 4) // 2)     # concurrent real-pool runs
 CONFIGS = {'D': (), 'DV': ('violations',), 'DJ': ('junit',), 'DJV': ('junit', 'violations')}
 
 
@@ -524,8 +525,12 @@ def _unit_real(item):
         s = m['sched']
         if [tuple(e) for e in s.trace] != trace:
             return dict(uid=item['uid'], bad=f'model replay of {trace} gave {s.trace}')
-        bad = real_forced(env, item['cfg'], item['W'], trace, s.assigned_after,
-                          dict(count=m['count'], obs=observe(m)), item['uid'])
+        with vsched.real_slot(item['scratch'], REAL_SLOTS):
+            for attempt in (1, 2):
+                bad = real_forced(env, item['cfg'], item['W'], trace, s.assigned_after,
+                                  dict(count=m['count'], obs=observe(m)), f'{item["uid"]}_{attempt}', timeout=45.0 * attempt)
+                if not bad or 'not realisable' not in bad:
+                    break       # a time-out on an overloaded machine gets one more chance with doubled time-outs
         return dict(uid=item['uid'], bad=bad)
     finally:
         shutil.rmtree(env.root, ignore_errors=True)
@@ -582,6 +587,8 @@ def run(ctx):
         want = (kinds in conf_sets and cfg in conf_cfgs and (len(kinds) == 3 or W == 2))
         if len(kinds) == 3 and W == 3 and cfg in ('DJ', 'DJV'):
             want = False       # 216 (DJ) / 7776 (DJV) classes per case; DV covers the two-list case with 3 workers
+        if quick and len(kinds) == 3 and not (cfg == 'D' or (cfg == 'DV' and W == 2)):
+            want = False       # quick: 3 files with the default handler (W=2,3) and with two lists on 2 workers
         if split:
             for p in next(pi):
                 units.append(dict(case=ci, kinds=kinds, cfg=cfg, W=W, prefix=[list(x) for x in p], seed=ctx.seed,
@@ -608,7 +615,7 @@ def run(ctx):
         for sig, case, det in r['viols']:
             ctx.violation(sig, dict(case, seed=ctx.seed), det)
         st = r['stats']
-        serial_runs += 1
+        serial_runs += 1 if u['prefix'] else 2      # cached reference run (+ the un-cached one)
         schedules += st['schedules']
         traces += st['distinct_traces']
         if 'state_set' in st:
@@ -658,8 +665,9 @@ def run(ctx):
         schedules_explored=schedules, distinct_traces=traces, max_choice_depth=depth, cases=len(cases),
         serial_reference_runs=serial_runs, largest_case_schedules=max(v['schedules'] for v in per_case.values()),
         conformance=dict(real_pool_interleavings=len(real_items),
-                         selection=f'file sets {conf_sets} x handler configs {list(conf_cfgs)} x W in (2,3) (3 files with 3 workers: D and DV '
-                                   'only; 2 files: W=2 only): one interleaving per class '
+                         selection=f'file sets {conf_sets} x handler configs {list(conf_cfgs)} x W in (2,3) (3 files: ' +
+                                   ('D with W=2,3 and DV with W=2' if quick else 'all with W=2, D and DV with W=3') +
+                                   '; 2 files: W=2 only): one interleaving per class '
                                    '(order of appends per handler list + completion order), forced through GateHandlers; ordered '
                                    'handler outputs and checked count must equal the model\'s prediction for that interleaving'),
         wall=dict(explore=round(t_explore, 1), real_pool=round(t_real, 1)),
